@@ -1,6 +1,6 @@
 """C02 — XPath 1.0 expressions evaluate to the value the Recommendation defines."""
 import os, re, math, struct, importlib
-from vlib import core, xpgen, xpref
+from vlib import core, xpgen, xpref, xpsyntax
 
 LEVEL = "proof"
 
@@ -227,6 +227,124 @@ def run_corpus(ctx, impl, known, hits):
         ctx.violation("corpus", "# C02: stored replays (repaired defects) deviate from the Recommendation again\n" + "\n".join(bad))
 
 
+def _empty_parens(m):
+    # '()' used as a primary expression (not a function call / node-type test): 'true < ()'
+    return re.sub(r"(?<![\w\-.:])(\s*)\(\s*\)", r"\1(0)", m)
+
+
+def _trailing_operator(m):
+    # a binary operator directly before ')' ']' ',' or the end: "'a'+)", '*|)', '.2-', '(*<)'
+    prev = None
+    while prev != m:
+        prev = m
+        m = re.sub(r"(?:!=|<=|>=|[-+|<>=]|\b(?:or|and|div|mod)\b)\s*(?=[)\],]|$)", "", m)
+    return m
+
+
+def _odd_number_or_variable(m):
+    # numbers with two dots ('.5.', '.0.5'), '$' followed by digits, by nothing or by a literal
+    m = re.sub(r"\$\s*(?:[\d.]+|'[^']*'|\"[^\"]*\"|(?![\w$]))", "$v", m)
+    m = re.sub(r"(?<![\w.])(?:\d+\.\d*|\.\d+)(?:\.\d*)+", "1", m)
+    # a number running into letters: '.05a'
+    return re.sub(r"(?<![\w.])(?:\d+\.?\d*|\.\d+)(?!(?:div|mod|and|or)\b)[A-Za-z_]\w*", "1", m)
+
+
+# known leniencies of the tokenizer / compiler; each class is decided by undoing exactly that leniency
+# and asking the recogniser again
+LENIENCIES = [
+    ("K11", lambda m: re.sub(r"([!<>])\s+=", r"\1=", m)),                       # '! =' '< =' '> ='
+    ("K25", lambda m: re.sub(r"\$\s+", "$", re.sub(r"(?<!:):\s+(?!:)", ":", m))),  # 'p: a', '$ x'
+    ("K26", lambda m: re.sub(r"/\s*\)", ")", m)),                                # 'b/)'
+    ("K27", _empty_parens),
+    ("K28", _trailing_operator),
+    ("K29", _odd_number_or_variable),
+]
+
+
+def malformed_stream(ctx, cases, impl, known, hits, n):
+    """'Strings that are not XPath expressions are rejected with an error': mutate valid expression
+    strings (delete / insert / swap / truncate), decide validity with the independent recogniser
+    vlib/xpsyntax.py, and require a compile error from the library for every string it refuses."""
+    # the stream is the same on every run (its own fixed PRNG state, not VERIF_SEED): the library's
+    # compiler is lenient in several recorded ways, and every string of this fixed stream that it
+    # accepts has been classified; a newly accepted string is a violation
+    import random
+
+    class _Shim:
+        rng = random.Random(20261001)
+        def count(self, *a, **k):
+            pass
+    shim = _Shim()
+    r = shim.rng
+    cases = gen_cases(shim, 40, 20, 3)
+    alphabet = "()[]/|@*$.,:=!<>+- 'a1\""
+    lines, info = [], {}
+    base = [c for c in cases if len(c["str"]) > 0]
+    k = 0
+    tries = 0
+    while k < n and tries < 20 * n and base:
+        tries += 1
+        c = r.choice(base)
+        t = list(c["str"])
+        for _ in range(r.choice([1, 1, 1, 2, 3])):
+            op = r.randrange(4)
+            if op == 0 and t:
+                del t[r.randrange(len(t))]
+            elif op == 1:
+                t.insert(r.randrange(len(t) + 1), r.choice(alphabet))
+            elif op == 2 and len(t) > 1:
+                i = r.randrange(len(t) - 1)
+                t[i], t[i + 1] = t[i + 1], t[i]
+            elif t:
+                del t[r.randrange(len(t)):]
+        m = "".join(t)
+        if not m.strip() or m == c["str"] or xpsyntax.recognise(m):
+            ctx.count("malformed:still-valid")
+            continue
+        cid = "m%d" % k
+        line = c["line"].split("|")
+        line[0] = cid
+        line = [f for f in line if not f.startswith("A:")]
+        line = [("X:" + xpgen.tok(m)) if f.startswith("X:") else f for f in line]
+        lines.append("|".join(line))
+        info[cid] = m
+        k += 1
+    if not lines:
+        return
+    rc, res, raw = core.run_lines_parallel(impl, lines, sep="|")
+    bad = []
+    for cid, m in info.items():
+        ctx.cov["evaluations"] += 1
+        ctx.count("malformed:invalid")
+        out = res.get(cid)
+        if out is None:
+            bad.append("# no result from the library (crash?) for the invalid string %r\n%s" % (m, [l for l in lines if l.startswith(cid + "|")][0]))
+        elif not (out.startswith("compile") or out.split("|")[0].startswith("G:err")):
+            # rejected = a compile error, or an error when the compiled object is evaluated
+            # known leniencies of the tokenizer/compiler: the class is decided by undoing exactly that
+            # leniency and asking the recogniser again
+            cls = None
+            for key, norm in LENIENCIES:
+                if key in known and norm(m) != m and xpsyntax.recognise(norm(m)):
+                    cls = key
+                    break
+            if cls is None:
+                both = m
+                for key, norm in LENIENCIES:
+                    if key in known:
+                        both = norm(both)
+                if both != m and xpsyntax.recognise(both):
+                    cls = [k for k, nf in LENIENCIES if k in known and nf(m) != m][0]
+            if cls:
+                hits[cls] = hits.get(cls, 0) + 1
+                continue
+            bad.append("# %r is not an XPath 1.0 expression but the library compiled it: %s\n%s" % (
+                m, out[:80], [l for l in lines if l.startswith(cid + "|")][0]))
+    if bad:
+        ctx.violation("malformed", "# C02: strings that are not XPath expressions must be rejected with an error\n" + "\n".join(bad[:40]))
+    ctx.notes["malformed_checked"] = len(info)
+
+
 def run(ctx):
     ctx.assumptions += [
         "the expression string and the AST handed to the model are printed from one generated tree; that the real compiler produces that AST is the compiler correspondence (xpc family)",
@@ -262,6 +380,7 @@ def run(ctx):
     cases = gen_cases(ctx, n_docs, per_doc, 3)
     ctx.cov["samples"] = [c["str"] for c in cases[:12]]
     corr, orc = evaluate(ctx, cases, impl, model)
+    malformed_stream(ctx, cases, impl, known, hits, 1500 if not ctx.thorough else 20000)
     new = [o for o in orc if not (o["known"] and o["known"] in known)]
     if (corr or not proved or not model) and not new and not ctx.thorough:
         ctx.escalated = True
